@@ -859,12 +859,35 @@ def rule_r10(prog, res):
     n = 0
     for nm, g in sorted(cm.methods.items()):
         for loop in walk_no_defs(g.node):
-            if isinstance(loop, ast.For) and '_variants' in unparse(loop.iter):
+            if not isinstance(loop, ast.For):
+                continue
+
+            def is_snap(e):
+                return (isinstance(e, ast.Call) and call_name(e) in (
+                    'list', 'tuple', 'copy')) or (isinstance(
+                        e, (ast.Tuple, ast.List)) and not e.elts)
+
+            def reads_registry(node):
+                return any(isinstance(x, ast.Attribute) and
+                           x.attr == '_variants' for x in ast.walk(node))
+            it = loop.iter
+            walk = reads_registry(it)
+            snap = is_snap(it)
+            if not walk and isinstance(it, ast.Call) and isinstance(
+                    it.func, ast.Attribute) and isinstance(
+                    it.func.value, ast.Name) and it.func.value.id in (
+                    'cls', 'self') and not it.args and not it.keywords:
+                # a helper of the class that hands the registry out
+                h = prog.find_method(cm, it.func.attr)
+                if h is not None and reads_registry(h.node):
+                    walk = True
+                    rets = [r for r in walk_no_defs(h.node)
+                            if isinstance(r, ast.Return)]
+                    snap = bool(rets) and all(
+                        r.value is not None and is_snap(r.value)
+                        for r in rets)
+            if walk:
                 n += 1
-                it = loop.iter
-                snap = isinstance(it, ast.Call) and call_name(it) in (
-                    'list', 'tuple', 'copy', 'keys') and (
-                    call_name(it) != 'keys')
                 where = '%s:%d' % (g.module.relpath, loop.lineno)
                 res.ob('R10', where, '%s iterates %s' % (nm, unparse(it)[:50]),
                        'ok' if snap else 'VIOLATED')
